@@ -4,6 +4,7 @@ import (
 	"fmt"
 	"go/ast"
 	"go/token"
+	"regexp"
 	"pigeonverif/internal/variants"
 	"sort"
 	"strings"
@@ -28,6 +29,7 @@ func C01(c *Ctx) {
 	r.Rule("C01-d", "the type switch of parseExpr has one case per node type the builder can emit in this variant, each calling the evaluator of that kind with the switched value, and a default that panics; the builder lower-cases literal/class members iff it emits ignoreCase:true for the same node and the runtime folds the input rune iff ignoreCase")
 	r.Rule("C01-e", "in parseAnyMatcher, parseCharClassMatcher and parseLitMatcher every call of read() is dominated by the fact 'not at end of input' (false edge of rn==utf8.RuneError && w==0 on the unfolded current rune, or true edge of cur < K with K <= 0xFFFD)")
 	r.Rule("C01-f", "parse() builds the rule table from all g.rules, looks the start rule up by p.entrypoint, and reports errInvalidEntrypoint with a nil value when it is absent")
+	r.Rule("C01-g", "under IgnoreCase the builder emits the lower-case image of a range, not the interval between its lower-cased end points: the runtime tests low <= fold(input) <= high, and unicode.ToLower is not monotone ([A-z]i must still match the runes between Z and a)")
 	r.Rule("C01-x", "every statement of every evaluator has a transfer function in the abstract interpreter (otherwise the obligation is undecided and the check fails)")
 
 	abs := c.allAbs()
@@ -62,6 +64,7 @@ func C01(c *Ctx) {
 	r.MinRule("C01-a", 20)
 	r.MinRule("C01-c", 18)
 	c01dLowering(c)
+	c01gRangeImage(c, "C01-g")
 	basicLatinCaseClosure(c, "C01-d")
 	builderPairingN(c, "C01-d")
 }
@@ -784,3 +787,44 @@ func c01dLowering(c *Ctx) {
 			fmt.Sprintf("lowered=%d raw=%d flag-from-field=%t %s", nLowered, nRaw, flagOK, strings.Join(uniq(bad), "; ")))
 	}
 }
+
+// c01gRangeImage: the class matcher of the runtime tests a range as low <= fold(input) <= high, so under IgnoreCase
+// the emitted ranges must denote the lower-case image of the ranges as written. Mapping the two end points one by
+// one does not give that image: unicode.ToLower is not monotone ([A-z] becomes [a-z] and loses the six runes between
+// Z and a; [Z-a] becomes the empty range z-a). Reported wherever the value written after `ranges:` is a case mapping
+// of a single element of the node's Ranges.
+func c01gRangeImage(c *Ctx, rule string) {
+	r := c.R
+	g := c.G()
+	if g == nil {
+		return
+	}
+	fd := load.FuncDecl(g.Pkg("builder"), "builder", "writeCharClassMatcher")
+	if fd == nil {
+		r.Fatal("anchor builder.writeCharClassMatcher not found")
+		return
+	}
+	b, x := recvName(fd), firstParam(fd)
+	re := regexp.MustCompile(`unicode\.(ToLower|ToUpper|ToTitle|SimpleFold)\(` + regexp.QuoteMeta(x) + `\.Ranges\[`)
+	var bad []string
+	nRanges := 0
+	for _, p := range c.builderNorm().normPaths(fd) {
+		if p.holds(x + "==nil") {
+			continue
+		}
+		_, kvs, _ := keyValues(emissions(p, b))
+		for _, kv := range kvs {
+			if kv.Key != "ranges" {
+				continue
+			}
+			nRanges++
+			if re.MatchString(kv.Val) {
+				bad = append(bad, "an end point is emitted as "+kv.Val+" (facts: "+strings.Join(kv.Facts, " ")+")")
+			}
+		}
+	}
+	r.Check(len(bad) == 0 && nRanges >= 1, rule, "G.builder.writeCharClassMatcher:ranges:case-image-of-a-range", "", g.Where(fd.Pos()),
+		fmt.Sprintf("%d emissions of range end points, none a case mapping of a single end point", nRanges),
+		fmt.Sprintf("emissions=%d %s: the lower-case image of a range is not the interval between its lower-cased end points ([A-z]i does not match '_', [Z-a]i matches nothing)", nRanges, strings.Join(uniq(bad), "; ")))
+}
+
